@@ -261,7 +261,7 @@ def apply(project, label, mj):
             # "won't change any database state": tables keep their names
             m['meta']['db_table'] = S.table_name(old, m)
         app['label'] = new
-    elif kind in ('SQLBarrier', 'SQLRaw'):
+    elif kind in ('SQLBarrier', 'SQLRaw', 'SQLFile'):
         pass
     else:
         raise ValueError(kind)
